@@ -87,7 +87,7 @@ static std::string checkTrace(const std::string &file, const std::string &input,
 static void checkProgram(xrun::Runner &R, const std::string &src, const std::string &family, uint64_t order, Stats &st, bool verbose = false) {
   auto S = xrun::searchInputs(src, 1);
   st.add("programs");
-  std::vector<xrun::RefCase> use; for (auto &c : S.kept) if (c.oc.out.empty() && c.oc.steps < 20000) use.push_back(c);
+  std::vector<xrun::RefCase> use; for (auto &c : S.kept) if (c.oc.out.empty() && c.oc.steps < 60000) use.push_back(c);
   if (use.empty()) { st.add("programs_without_silent_defined_case"); return; }
   auto cr = R.compile(src); if (cr.status != 0) { st.add("not_compiled"); return; }
   std::string file = slurp(R.binPath);
@@ -131,6 +131,12 @@ int main(int argc, char **argv) {
         extra.push_back({"order", s});
       }
     } while (std::next_permutation(perm.begin(), perm.end()));
+  }
+  // symbol names of every length around typical column widths x procedure bodies long enough for 1-, 2-, 3-, 4- and 5-digit offsets
+  for (int L : {1, 7, 11, 12, 13, 14, 15, 16, 17, 24, 31, 32, 33, 64}) for (int body : {1, 12, 130, 1400}) {
+    std::string nm(L, 'q'); nm[0] = 'p'; if (L > 2) nm[L - 1] = 'z';
+    std::string blk; for (int i = 0; i < body; i++) blk += "g := g + " + std::to_string(i % 5 + 1) + "; ";
+    extra.push_back({"names", "var g;\nproc " + nm + "(val v) is { " + blk + "g := g + v }\nfunc f" + nm + "(val v) is { " + blk + "return g + v }\nproc main() is { g := 0; " + nm + "(1); g := f" + nm + "(2); " + nm + "(3); 0(g) }\n"});
   }
   uint64_t total = C.total + extra.size();
   phase(ctx, "corpus " + std::to_string(C.total) + " + " + std::to_string(extra.size()) + " procedure-order programs");
